@@ -1,7 +1,7 @@
 import sys
 sys.path.insert(0, "/verif")
 from harness.checks import c03
-c03.TIERS["quick"] = {"UNI": (7, 18, 40, 6)}
+c03.TIERS["quick"] = {"UNI": (6, 14, 25, 3)}
 import os
 os.environ["VERIF_EVIDENCE_SUFFIX"] = ".dev-uni"
 sys.exit(c03.main("quick"))
